@@ -448,6 +448,37 @@ def string_leaves(t):
         if t[0] == "binop" and t[1] == "%":
             right = t[3]
             items = list(right[2]) if is_lit(right, "tuple") else [right]
+            if is_const(t[2]) and isinstance(t[2][2], str):
+                # a constant template: every conversion with its argument ('%s' is str(x), ...)
+                import re as _re
+
+                out, pos, k, ok = [], 0, 0, True
+                for m in _re.finditer(r"%(?:\((\w+)\))?[#0\- +]*(\*|\d+)?(?:\.(\*|\d+))?[hlL]?([diouxXeEfFgGcrsa%])", t[2][2]):
+                    if m.start() > pos:
+                        out.append(C(t[2][2][pos : m.start()]))
+                    pos = m.end()
+                    conv = m.group(4)
+                    if conv == "%":
+                        out.append(C("%"))
+                        continue
+                    if m.group(1) or m.group(2) == "*" or m.group(3) == "*" or k >= len(items):
+                        ok = False
+                        break
+                    v = items[k]
+                    k += 1
+                    plain = not m.group(2) and not m.group(3)
+                    if conv == "s" and plain:
+                        out.append(("call", "builtin:str", (v,), ()))
+                    elif conv == "a" and plain:
+                        out.append(("call", "builtin:ascii", (v,), ()))
+                    elif conv == "r" and plain:
+                        out.append(("call", "builtin:repr", (v,), ()))
+                    else:
+                        out.append(("fmt", "%", v))
+                if ok and k == len(items) and "%" not in t[2][2][pos:]:
+                    if pos < len(t[2][2]):
+                        out.append(C(t[2][2][pos:]))
+                    return out
             return string_leaves(t[2]) + [("fmt", "%", x) for x in items]
         if t[0] == "fstr":
             out = []
